@@ -158,7 +158,8 @@ READER_OVERRIDES = {
     "_parse_taxlabels_statement": dict(loops={1: " and not isnone(token)"}),
     "_parse_tree_statement": dict(ensures_extra=" and {t}.g_pos > old({t}.g_pos)".format(t=T)),
     # _build_tree_from_newick_tree_string delegates to NewickReader._parse_tree_statement (recursive descent over the same
-    # tokenizer): verified against that function's contract, which contracts/C20newick.py proves
+    # tokenizer): verified against that function's contract, which contracts/C20newick.py proves; a tree costs a token
+    "_build_tree_from_newick_tree_string": dict(ensures_extra=" and implies(not isnone(result), ({m}) < old({m}))".format(m=MEASURE_T.format(t=T))),
 }
 
 ALLOWED = ("NexusReaderError", "UnexpectedEndOfStreamError", "UnterminatedQuoteError", "NotNexusFileError", "IncompleteBlockError",
@@ -198,11 +199,34 @@ def reader_contracts():
     return out
 
 
+NYI = "dendropy.dataio.nexusyielder"
+
+
+def yielder_contracts():
+    """the NEXUS one-tree-at-a-time iterator (a NexusReader subclass): its own driver loop and its TREES-block generator"""
+    m = frontend.module(NYI)
+    ci = m.classes["NexusTreeDataYielder"]
+    inv = INV_T.format(t=T)
+    out = []
+    for name in ("_yield_items_from_stream", "_yield_from_trees_block"):
+        fn = ci.methods[name]
+        types = dict((a.arg, "opaque") for a in fn.args.args[1:])
+        types["return"] = "opaque"
+        out.append(Contract(NYI + ":NexusTreeDataYielder." + name, types=types, requires=inv,
+                            modifies=[T + ".g_pos", T + ".g_eof", T + ".current_token"],
+                            ensures=None if name == "_yield_items_from_stream" else {"tokenizer-monotone": MONO_T.format(t=T) + " and " + inv},
+                            locals={"token": "opt str"}, allowed_raises=ALLOWED, may_raise=("NexusReaderError",), terminates_required=True, frame=False))
+    return out
+
+
 def build_suite():
     from contracts import C20newick as NWK
     callee = [c for c in NWK.newick_contracts() if c.name == "NewickReader._parse_tree_statement"]
-    cs = tok_contracts() + reader_contracts()
-    s = Suite(NWK.SCHEMA, [NR, NP, TK, NWK.NW], cs + callee, executor_cls=ReaderExecutor)
+    cs = tok_contracts() + reader_contracts() + yielder_contracts()
+    schema = dict(NWK.SCHEMA)
+    schema["NexusTreeDataYielder._nexus_tokenizer"] = "ref:NexusTokenizer"
+    schema["NexusTreeDataYielder.newick_reader"] = "ref:NewickReader"
+    s = Suite(schema, [NR, NP, TK, NWK.NW, NYI], cs + callee, executor_cls=ReaderExecutor)
     return s, cs
 
 
@@ -215,8 +239,9 @@ def t1(ctx):
     from dpvc import replay_c20
     for c in cs:
         verify_contract(ctx, suite, c, sentinels=False, replay=replay_c20.replay_reader)
-    from contracts import C20newick
+    from contracts import C20newick, C20chars
     C20newick.t1(ctx)
+    C20chars.t1(ctx)
     validate_tokenizer_assumptions(ctx)
     raise_family_scan(ctx)
 
@@ -225,6 +250,22 @@ def validate_tokenizer_assumptions(ctx):
     """run-time validation of the ASSUMED tokenizer contracts on sample texts (not a proof)"""
     from dendropy.dataio.nexusprocessing import NexusTokenizer
     texts = ["", " ", "a", "a ", "a;b", "a [c] ;", "[c]", "'q' x", "a'b'", "(a,b);\n", "x [c", "a\n\n", ";", "a=b"]
+    from bounded.common import time_limit, Timeout
+    n = 0
+    try:
+        with time_limit(20):
+            n = _validate_tokenizer_texts(ctx, texts, NexusTokenizer)
+    except Timeout:
+        # the real tokenizer does not return on one of 14 tiny texts: that is a violation of C20 in its own right (with the texts as input)
+        ctx.fail("tokenizer.returns-on-the-sample-texts", dict(key="tokenizer-hang", texts=texts),
+                 detail="the real NexusTokenizer did not finish tokenizing the %d sample texts within 20 s of CPU time" % len(texts), kind="T1")
+        return
+    if n is None:
+        return
+    ctx.crosscheck_inputs += n
+
+
+def _validate_tokenizer_texts(ctx, texts, NexusTokenizer):
     n = 0
     for tx in texts:
         ref = list(NexusTokenizer(io.StringIO(tx)))
@@ -245,10 +286,10 @@ def validate_tokenizer_assumptions(ctx):
                 ok = False
             if not ok:
                 ctx.checker_failure("assumed tokenizer contract does not hold natively on %r at token %d" % (tx, pos))
-                return
+                return None
             if t is None:
                 break
-    ctx.crosscheck_inputs += n
+    return n
 
 
 def raise_family_scan(ctx):
@@ -269,7 +310,7 @@ def raise_family_scan(ctx):
                 fam.add(k)
                 changed = True
     import time
-    for modname in (NR, "dendropy.dataio.newickreader", TK):
+    for modname in (NR, "dendropy.dataio.newickreader", TK, "dendropy.dataio.nexusyielder", "dendropy.dataio.newickyielder"):
         m = frontend.module(modname)
         for node in ast.walk(m.tree):
             if not isinstance(node, ast.Raise):
